@@ -94,3 +94,15 @@ contract(NX + 'NTAG21x._authenticate', 'C20', dict(self=NT(), password=Bytes(6, 
 contract(FS + 'FelicaLite._authenticate', 'C20', dict(self=FL(), password=Bytes(16, 20)),
          name='C20/sentinel.felica-always-true', use=FUSE, native=False, expect_fail=True,
          ensures=[('post', 'result == True')], raises={})
+
+# the assumed contract C20/felica.read_without_encryption ("16 octets per requested block") proved on the real
+# command: the MAC code slices the response from its end and relies on the exact size - a response carrying fewer
+# (e.g. zero) blocks than requested must be refused, for the block list sizes the authentication and MAC reads use
+from .c16_tagcmd import T3 as _T3, T3E as _T3E   # noqa
+_SC = lambda: Obj('nfc.tag.tt3:ServiceCode', _partial=False, number=Int(0, 1023), attribute=Int(0, 63))   # noqa
+_BC = lambda: Obj('nfc.tag.tt3:BlockCode', _partial=False, number=Int(0, 255), access=Int(0, 7), service=0)   # noqa
+for _n in (1, 2, 4):
+    contract('nfc.tag.tt3:Type3Tag.read_without_encryption', 'C20',
+             dict(self=_T3(), service_list=Fixed([_SC()]), block_list=Fixed([_BC() for _ in range(_n)])),
+             name='C20/tt3.read_without_encryption[%d]' % _n,
+             ensures=[('O-read.size', 'len(result) == 16 * %d' % _n)], raises={_T3E: []})
